@@ -105,6 +105,7 @@ func RandAddr(r *rand.Rand) Addr {
 
 // AttCase is one attestation signing request.
 type AttCase struct {
+	Ctx  context.Context // optional request context (nil = background)
 	Key  *rig.Key
 	Name string // wallet/account
 	Addr Addr
@@ -119,6 +120,7 @@ func (c *AttCase) SigningRoot() [32]byte { return oracle.SigningRoot(c.DataRoot(
 
 // PropCase is one proposal signing request.
 type PropCase struct {
+	Ctx  context.Context
 	Key  *rig.Key
 	Name string
 	Addr Addr
@@ -141,6 +143,13 @@ type GenCase struct {
 
 func (c *GenCase) SigningRoot() [32]byte {
 	return oracle.SigningRoot([32]byte(b32(c.Data.Data)), c.Data.Domain)
+}
+
+func orBackground(ctx context.Context) context.Context {
+	if ctx == nil {
+		return context.Background()
+	}
+	return ctx
 }
 
 func b32(b []byte) [32]byte {
@@ -351,7 +360,7 @@ func (e *Env) SignAtt(via Via, c *AttCase) (core.Result, []byte) {
 		return resFromPB(res.GetState()), res.GetSignature()
 	}
 	name, key := addrOf(c.Name, c.Key, c.Addr)
-	return e.Stack.Signer.SignBeaconAttestation(context.Background(), e.Creds, name, key, c.Data)
+	return e.Stack.Signer.SignBeaconAttestation(orBackground(c.Ctx), e.Creds, name, key, c.Data)
 }
 
 // SignAtts issues a batch of attestation requests.
@@ -388,7 +397,7 @@ func (e *Env) SignAtts(via Via, cs []*AttCase) ([]core.Result, [][]byte) {
 		names[i], keys[i] = addrOf(c.Name, c.Key, c.Addr)
 		data[i] = c.Data
 	}
-	return e.Stack.Signer.SignBeaconAttestations(context.Background(), e.Creds, names, keys, data)
+	return e.Stack.Signer.SignBeaconAttestations(orBackground(cs[0].Ctx), e.Creds, names, keys, data)
 }
 
 // SignProp issues one proposal request.
@@ -415,7 +424,7 @@ func (e *Env) SignProp(via Via, c *PropCase) (core.Result, []byte) {
 		return resFromPB(res.GetState()), res.GetSignature()
 	}
 	name, key := addrOf(c.Name, c.Key, c.Addr)
-	return e.Stack.Signer.SignBeaconProposal(context.Background(), e.Creds, name, key, c.Data)
+	return e.Stack.Signer.SignBeaconProposal(orBackground(c.Ctx), e.Creds, name, key, c.Data)
 }
 
 func pbGenReq(c *GenCase) *pb.SignRequest {
